@@ -283,12 +283,11 @@ Proof.
   unfold str, char in *; rewrite Ep in E1; rewrite E1 in E2; injection E2 as -> _; discriminate Hx end.
 Qed.
 
-Lemma no_xmldecl_here s ts r1 : SM (NT nt_misc) s ts r1 ->
-  (exists c s0, r1 = 60 :: c :: s0 /\ eval spec_NameStartChar c = true) ->
+Lemma no_xmldecl_here s ts r1 : SM (NT nt_misc) s ts r1 -> W.strip W.s_xmldecl_open r1 = None ->
   match W.strip W.s_xmldecl_open s with Some r' => W.p_xmldecl r' = None | None => True end.
 Proof.
-  intros H [c [s0 [E Hc]]]. inv H.
-  - destruct (start_tests c s0 Hc) as [_ [-> _]]. exact I.
+  intros H E. inv H.
+  - rewrite E. exact I.
   - match goal with H : succ _ (NT nt_misc) _ _ _ |- _ => inv_nt H body_misc end. repeat inv_alt; invs.
     + match goal with H : succ _ (NT nt_comment) _ _ _ |- _ => apply syn_comment in H; destruct H as [cm [s' [_ [-> _]]]] end. exact I.
     + match goal with H : succ _ (NT nt_pi) _ _ _ |- _ => apply pi_not_xmldecl in H; exact H end.
@@ -356,7 +355,7 @@ Proof.
   { exfalso. match goal with H : succ _ (Seq (NT nt_doctype_decl) _) _ _ _ |- _ => inv H end.
     match goal with H : succ _ (Many0 _) _ _ _ |- _ => inv H end.
     cbn [eval_tree] in Ep. apply prolog_val_doctype in Ep. contradiction. }
-  destruct Hstart as [c [s0 [Es' Hc]]]. injection Es' as ->. destruct (start_tests c s0 Hc) as [Hstop [_ Hnodt]].
+  destruct Hstart as [c [s0 [Es' Hc]]]. injection Es' as ->. destruct (start_tests c s0 Hc) as [Hstop [Hnox Hnodt]].
   match goal with H : succ_many _ (NT nt_misc) _ _ _ |- _ => pose proof H as Hm1; destruct (syn_miscs _ _ _ H Hstop) as [m1 [Em1 Hm1']] end.
   cbn [eval_tree] in Ep. rewrite Em1 in Ep.
   match goal with H : succ _ (Opt (NT nt_xml_decl)) _ _ _ |- _ => pose proof (succ_suffix _ _ _ _ _ H) as Hsuf1; inv H end.
@@ -375,7 +374,7 @@ Proof.
     unfold d04_doc_nodt in Hd. cbn [d_prolog pr_heads d_element d_miscs] in Hd.
     apply andb_prop in Hd. destruct Hd as [Hd Hd3]. apply andb_prop in Hd. destruct Hd as [Hd1 Hd2].
     apply suffix_length in Hsuf0. cbn [length] in *.
-    pose proof (no_xmldecl_here _ _ _ Hm1 (ex_intro _ c (ex_intro _ s0 (conj eq_refl Hc)))) as Hno.
+    pose proof (no_xmldecl_here _ _ _ Hm1 Hnox) as Hno.
     unfold W.parse_document.
     match type of Hno with match W.strip _ ?s1 with _ => _ end =>
     assert (match W.strip W.s_xmldecl_open s1 with
